@@ -47,7 +47,12 @@ RULE = (
     "look numeric only in part (117 / 120_b) is compared with the chunk-free specification on canonical keys and "
     "with the model of the per-chunk dtype inference and of _entity_key (xkeyfiles); once per run "
     "a fresh interpreter checks that every MOKAPOT_* environment variable reaches the module constant the "
-    "harness varies"
+    "harness varies. Third pass: Parquet variants whose integer spectrum columns are stored as int32 / uint32 / int16 / "
+    "uint64 (values unchanged); the folds returned by every real _split call are recorded and compared with the "
+    "baseline and with the Lean model of the fold key (xfoldkeys / xfoldkeysspec, rendered with numpy, crc32, split "
+    "op of C02); in the mixed-spelling run a part of the SpecId / Proteins / PeptideGroup cells look numeric "
+    "(zero-padded, trailing zero): every identifier cell of every result file must be the text of the input cell, and "
+    "the files are compared with the model of the three chunked text reads (xtextfiles)"
 )
 THR = 0.25
 DELAYED = [
@@ -168,6 +173,55 @@ def record_streams(log, phase):
             cls.get_chunked_data_iterator = old
 
 
+@contextlib.contextmanager
+def record_split(rec):
+    """records the folds (sorted row numbers) returned by every real OnDiskPsmDataset._split call"""
+    cls = P.mod("mokapot.dataset").OnDiskPsmDataset
+    old = cls._split
+    lock = threading.Lock()
+
+    def wrapped(self, folds, rng):
+        res = old(self, folds, rng)
+        with lock:
+            rec.append(dict(file=Path(self.filename).name, folds=[sorted(int(i) for i in f) for f in res]))
+        return res
+
+    cls._split = wrapped
+    try:
+        yield
+    finally:
+        cls._split = old
+
+
+NARROW = {  # storage types of (ScanNr, ExpMass) in a Parquet variant; None = as pandas holds them (int64)
+    "i32": ("int32", "int32"), "u32": ("uint32", "uint32"), "i16-i32": ("int16", "int32"),
+    "i32-i64": ("int32", None), "u64-i64": ("uint64", None),
+}
+
+
+def write_variant_table(df, path, cfg):
+    """the table in the variant's format; a `narrow` Parquet variant stores the integer spectrum columns with
+    another width / signedness (same values)"""
+    nar = cfg.get("narrow")
+    if not nar or Path(path).suffix != ".parquet":
+        return mkdata.write_table(df, path, row_group_size=cfg["rg"])
+    cast = {c: t for c, t in zip(("ScanNr", "ExpMass"), NARROW[nar]) if t and c in df.columns
+            and df[c].dtype.kind in "iu"}
+    return mkdata.write_table(df.astype(cast), path, row_group_size=cfg["rg"])
+
+
+def stored_types(df, cfg, cols):
+    """[float?, bits, signed] of every spectrum column as the variant's file stores it (text: always 64 bit)"""
+    nar = NARROW.get(cfg.get("narrow")) if cfg["fmt"] == "parquet" else None
+    out = []
+    for c in cols:
+        dt = df[c].dtype
+        if nar and c in ("ScanNr", "ExpMass") and dt.kind in "iu" and nar[("ScanNr", "ExpMass").index(c)]:
+            dt = np.dtype(nar[("ScanNr", "ExpMass").index(c)])
+        out.append([dt.kind == "f", int(dt.itemsize * 8), dt.kind != "u"])
+    return out
+
+
 TEXT_FMTS = ("pin", "tab", "csv")
 
 
@@ -188,13 +242,31 @@ def mixed_tables(case, dfs):
             decoy = pep.startswith("decoy_")
             g = int(pep.replace("decoy_", "")[3:-1]) // 2
             gid = (5000 if decoy else 100) + g
-            groups.append(f"{gid}_b" if g % 3 == 0 else str(gid))
+            # third pass: zero-padded ids (0118) and ids with a trailing zero (119.50); every group keeps ONE spelling
+            # and distinct groups are distinct numbers, so that no two spellings of one number meet
+            groups.append(f"{gid}_b" if g % 3 == 0 else (f"0{gid}" if g % 3 == 1 else (f"{gid}.50" if g % 6 == 2 else str(gid))))
         if "PeptideGroup" in x.columns:
             x["PeptideGroup"] = groups
         else:
             x.insert(list(x.columns).index("Proteins"), "PeptideGroup", groups)
+        # third pass (D54): identifier cells that look like numbers — a third of the PSM ids zero-padded (unique:
+        # the row id), the protein ids of two proteins in seven (007 / 0907)
+        x["SpecId"] = [f"{int(i):05d}" if r.random() < 0.35 else sid for i, sid in zip(x["rowid"], x["SpecId"])]
+        x["Proteins"] = [(("09" if p_.startswith("decoy_") else "00") + p_[-1]) if p_[-1] in "03" else p_ for p_ in x["Proteins"]]
         out.append(x)
     return out
+
+
+def read_result_text(path):
+    """a result file with every identifier cell as the text it is (the inferring reader would turn 007 into 7)"""
+    path = Path(path)
+    if not path.exists():
+        return None
+    f = pd.read_csv(path, sep="\t", dtype=str, keep_default_na=False)
+    for c in ("score", "q-value", "posterior_error_prob"):
+        if c in f.columns:
+            f[c] = f[c].astype(float)
+    return f
 
 
 def numeric_looking(v):
@@ -282,6 +354,14 @@ def gen_case(rng, idx=None):
     if case["center"]:
         # at least one variant whose confidence chunks are merged (several chunk files, the zero in one of them)
         case["variants"][-1]["confidence"] = rng.choice([2, 3, 7])
+    # third pass (drawn last): Parquet variants that store the integer spectrum columns narrower / unsigned
+    for v in case["variants"]:
+        nar = rng.choice(sorted(NARROW))
+        v["narrow"] = nar if (v["fmt"] == "parquet" and rng.random() < 0.6) else None
+    if idx is not None and idx % 5 == 2:     # every quick run holds a signed-narrow and an unsigned Parquet variant
+        case["variants"][0].update(fmt="parquet", narrow=["i32", "i16-i32"][(idx // 5) % 2])
+    if idx is not None and idx % 5 == 4:
+        case["variants"][-1].update(fmt="parquet", narrow=["u32", "u64-i64"][(idx // 5) % 2])
     return case
 
 
@@ -354,10 +434,12 @@ def run_config(case, dfs, d, cfg, tag):
     sizes = {k: csize(cfg[k], n) for k in ("confidence", "merge", "predict", "read_all", "drop_rows")}
     sizes["drop_cols"] = cfg["drop_cols"]
     if len(dfs) == 1:
-        paths = [mkdata.write_table(dfs[0], d / f"{tag}.{cfg['fmt']}", row_group_size=cfg["rg"])]
+        paths = [write_variant_table(dfs[0], d / f"{tag}.{cfg['fmt']}", cfg)]
     else:
-        paths = [mkdata.write_table(x, d / f"{tag}_{k}.{cfg['fmt']}", row_group_size=cfg["rg"]) for k, x in enumerate(dfs)]
+        paths = [write_variant_table(x, d / f"{tag}_{k}.{cfg['fmt']}", cfg) for k, x in enumerate(dfs)]
     out = {}
+    out["narrow"] = cfg.get("narrow") if cfg["fmt"] == "parquet" else None
+    out["splits"] = []
     mode = case.get("mode", "perfold")
     rec = []
     w_read, w_conf = cfg.get("workers_read", cfg["workers"]), cfg.get("workers_conf", cfg["workers"])
@@ -367,13 +449,14 @@ def run_config(case, dfs, d, cfg, tag):
     out["input_rows"] = {Path(p_).name: len(x) for p_, x in zip(paths, dfs)}
     with record_streams(slog, phase):
         _run_config_body(case, dfs, d, cfg, tag, out, sizes, paths, mode, rec, w_read, w_conf, decoys, phase)
+    out["splits"].sort(key=lambda e: e["file"])
     return out
 
 
 def _run_config_body(case, dfs, d, cfg, tag, out, sizes, paths, mode, rec, w_read, w_conf, decoys, phase):
     import mokapot
 
-    with P.chunk_sizes(**sizes), jitter(cfg["jseed"], cfg["jitter"]), record_parse(rec):
+    with P.chunk_sizes(**sizes), jitter(cfg["jseed"], cfg["jitter"]), record_parse(rec), record_split(out["splits"]):
         if len(paths) == 1:
             dss = [mkdata.read_dataset(paths[0], max_workers=w_read)]
         else:
@@ -458,7 +541,7 @@ def _run_config_body(case, dfs, d, cfg, tag, out, sizes, paths, mode, rec, w_rea
             with P.pep_kernel(stub=True):
                 P.run_assign_confidence(mds, [conf_scores(case, x) for x in mdfs], cdir3, prefixes=coll_prefixes(case),
                                         decoys=decoys, deduplication=case["dedup"], max_workers=w_conf)
-            out["files_mixed"] = {f.name: P.read_result(f) for f in sorted(cdir3.iterdir())}
+            out["files_mixed"] = {f.name: read_result_text(f) for f in sorted(cdir3.iterdir())}
 
 
 BASE = dict(confidence=10 ** 7, merge=10 ** 7, predict=10 ** 7, read_all=10 ** 7, drop_rows=10 ** 7, drop_cols=10 ** 3,
@@ -515,6 +598,11 @@ def compare(base, var, case=None, dfs=None):
         for k in ("features", "spectrum", "metadata", "levels", "spectra_cols", "spectra", "spectra_index"):
             if bd[k] != vd[k]:
                 return f"read_pin: dataset field {k} differs" + (f" (collection {kc})" if kc else "")
+    if [x["folds"] for x in base.get("splits", [])] != [x["folds"] for x in var.get("splits", [])]:
+        if var.get("narrow"):
+            return (f"brew-folds-dtype: the cross-validation folds differ from those of the text file although the Parquet file "
+                    f"holds the same values (integer spectrum columns stored as {NARROW[var['narrow']]})")
+        return "brew-folds: the cross-validation folds (_split) differ"
     if base["descs"] != var["descs"]:
         return "brew: descs differ"
     if base["scores"].shape != var["scores"].shape or [x.shape for x in base["scores_per"]] != [x.shape for x in var["scores_per"]]:
@@ -746,6 +834,115 @@ def check_mixed(case, cfg, out, dfs, n0):
     return None
 
 
+def np_key_text(is_float, vals):
+    """the text `_split` hashes for a row whose printed scalars are 64 bit: rendered by numpy itself (numpy < 2
+    prints no type name at all)"""
+    return str(tuple((np.float64(v) if is_float else np.int64(v)) for v in vals))
+
+
+def check_folds(case, cfg, out, dfs, n0):
+    """the folds of every real _split call against the Lean model of the fold key (kinds and values of the spectrum
+    columns, whatever their storage types) fed through crc32 into the split model of C02"""
+    from zlib import crc32
+
+    splits = out.get("splits", [])
+    if not splits:
+        return None
+    if len(splits) != len(dfs):
+        return ("corr", "xfoldkeys", f"brew called _split {len(splits)} times for {len(dfs)} collections")
+    reqs = []
+    for k, df in enumerate(dfs):
+        cols = out["dataset"][k]["spectrum"]
+        if any(df[c].dtype.kind not in "iuf" for c in cols):
+            return ("skip", "xfoldkeys-skipped-text-spectrum-column", None)
+        vals = df[cols].values
+        if not np.all(vals == np.floor(vals)):
+            return ("skip", "xfoldkeys-skipped-fractional", None)
+        rows = [[int(v) for v in x] for x in vals.tolist()]
+        types = stored_types(df, cfg, cols)
+        reqs += [req("xfoldkeys", types, rows), req("xfoldkeysspec", [t[0] for t in types], rows)]
+    resp = common.driver_batch(reqs)
+    hashes = []
+    for k in range(len(dfs)):
+        km, ks = dec(resp[2 * k]), dec(resp[2 * k + 1])
+        if km != ks:
+            return ("corr", "xfoldkeys", f"collection {k}: the model's fold keys depend on the storage types")
+        hashes.append([crc32(np_key_text(str(x[0]) == "T", [int(v) for v in x[3]]).encode()) for x in km])
+    resp = common.driver_batch([req("split", case["folds"], h) for h in hashes])
+    for k, (r, sp) in enumerate(zip(resp, splits)):
+        if r.strip().startswith("reject"):
+            return ("corr", "xfoldkeys", f"collection {k}: the split model rejects ({r.strip()}) where _split returned folds")
+        model = sorted(sorted(int(i) for i in f) for f in dec(r))
+        if model != sorted(sp["folds"]):
+            return ("spec" if out.get("narrow") else "corr", "brew-folds-dtype" if out.get("narrow") else "xfoldkeys",
+                    f"collection {k}: the folds of _split are not those of the key made of the kinds and values of the "
+                    f"spectrum columns {out['dataset'][k]['spectrum']} (stored as {stored_types(dfs[k], cfg, out['dataset'][k]['spectrum'])})")
+    out["folds_checked"] = len(dfs)
+    return None
+
+
+def text_class(v):
+    """cell class of a text as pandas' inference sees it: 0 integer spelling, 1 number with fraction / exponent, 2 text"""
+    import re
+
+    v = str(v)
+    if re.fullmatch(r"[+-]?\d+", v):
+        return 0
+    return 1 if numeric_looking(v) else 2
+
+
+def check_idtext(case, cfg, out, dfs, n0):
+    """D54: every identifier cell of every result file of the mixed-spelling run is the text of the input cell
+    (direct re-statement), and the files are those of the Lean model of the three chunked text reads"""
+    if not case.get("mixed") or "files_mixed" not in out:
+        return None
+    prefs = coll_prefixes(case)
+    mdfs = mixed_tables(case, dfs)
+    c, m = csize(cfg["confidence"], n0), csize(cfg["merge"], n0)
+    idcols = [("PSMId", "SpecId"), ("peptide", "Peptide"), ("proteinIds", "Proteins"), ("PeptideGroup", "PeptideGroup")]
+    allrows = {}
+    for df in mdfs:
+        for rec_ in df[[b for _, b in idcols]].astype(str).to_dict(orient="records"):
+            allrows[rec_["SpecId"]] = rec_
+    nres = 0
+    for name, f in out["files_mixed"].items():
+        if f is None:
+            continue
+        for rec_ in f.to_dict(orient="records"):
+            src = allrows.get(rec_["PSMId"])
+            if src is None:
+                return ("spec", "identifier-spelling", f"{name}: PSMId {rec_['PSMId']!r} is not the text of any SpecId cell of the input "
+                                                       f"(CONFIDENCE_CHUNK_SIZE={c}, MERGE_SORT_CHUNK_SIZE={m}, {cfg['fmt']} input)")
+            for a, b in idcols[1:]:
+                if a in rec_ and rec_[a] != src[b]:
+                    return ("spec", "identifier-spelling", f"{name}: PSM {rec_['PSMId']}: column {a} holds {rec_[a]!r}, the input cell "
+                                                           f"is {src[b]!r} (CONFIDENCE_CHUNK_SIZE={c}, MERGE_SORT_CHUNK_SIZE={m}, {cfg['fmt']} input)")
+            nres += 1
+    out["idtext_rows"] = nres
+    if len(dfs) > 1 and prefs[0] is None:
+        return ("skip", "xtextfiles-skipped-aggregated", None)
+    reqs, metas = [], []
+    for k, (df, pref) in enumerate(zip(mdfs, prefs)):
+        info = out["dataset_mixed"][k]
+        score = conf_scores(case, df)
+        rows = P.table_rows(df, info["spectrum"], info["levels"], score)
+        n = len(df)
+        # text ids: i = the SpecId of row i as written; n + i = pandas' spelling of the number it reads as
+        tb = [[i, text_class(sid), n + i, n + i] for i, sid in enumerate(df["SpecId"])]
+        reqs.append(req("xtextfiles", True, c, m, case["dedup"], len(info["levels"]), tb, rows, [int(x) for x in score]))
+        metas.append((k, df, pref, info))
+    resp = common.driver_batch(reqs)
+    for (k, df, pref, info), r in zip(metas, resp):
+        impl, names = impl_levels(case, out["files_mixed"], df, pref, info)
+        if isinstance(impl, str):
+            return ("spec", "identifier-spelling", f"collection {k}: {impl} (mixed spellings)")
+        if impl != parse_levels(case, r):
+            return ("corr", "xtextfiles", f"collection {k}: the result files differ from the model of the chunked text reads "
+                                          f"(identifiers read as text)")
+    out["idtext_numeric_ids"] = sum(1 for df in mdfs for sid in df["SpecId"] if text_class(sid) != 2)
+    return None
+
+
 def closed_spans(c, n):
     """direct re-statement of the stream profile: chunk k starts at row k*c and holds min(c, n - k*c) rows"""
     return [(k * c, min(c, n - k * c)) for k in range(-(-n // c))]
@@ -810,7 +1007,8 @@ def model_checks(chk, case, cfg, out, dfs):
     n0 = len(dfs[0])
     for fn in (lambda: check_ensemble(case, cfg, out, n0), lambda: check_reset(case, cfg, out, n0),
                lambda: check_train_tables(case, cfg, out, dfs, n0), lambda: check_files(case, cfg, out, dfs, n0),
-               lambda: check_streams(case, cfg, out, dfs, n0), lambda: check_mixed(case, cfg, out, dfs, n0)):
+               lambda: check_streams(case, cfg, out, dfs, n0), lambda: check_folds(case, cfg, out, dfs, n0),
+               lambda: check_idtext(case, cfg, out, dfs, n0), lambda: check_mixed(case, cfg, out, dfs, n0)):
         res = fn()
         if res is None:
             continue
@@ -827,6 +1025,11 @@ def model_checks(chk, case, cfg, out, dfs):
     for ph, nch in out.get("streams_checked", []):
         chk.count("stream-pass", ph.split("-")[0])
         chk.count("stream-chunks", "1" if nch == 1 else ("2-9" if nch < 10 else "10+"))
+    if out.get("folds_checked"):
+        chk.count("fold-key-model", f"{out.get('narrow') or '64-bit'}")
+    if "idtext_rows" in out:
+        chk.count("identifier-text-rows-checked", "0" if not out["idtext_rows"] else ("1-99" if out["idtext_rows"] < 100 else "100+"))
+        chk.count("identifier-numeric-looking-ids", "none" if not out.get("idtext_numeric_ids") else "some")
     for a, b in out.get("mixed_dtypes_vary", []):
         chk.count("mixed-chunk-dtypes-vary", f"mass:{a}/group:{b}")
     for a, b in out.get("mixed_old_keys_would_differ", []):
@@ -894,7 +1097,7 @@ def run_case(chk, case):
             chk.count("est", case["est"]); chk.count("cap", str(case.get("cap"))); chk.count("folds", case["folds"]); chk.count("fmt", cfg["fmt"]); chk.count("workers", cfg["workers"])
             for k in ("confidence", "merge", "predict", "read_all", "drop_rows", "drop_cols"):
                 chk.count(k, str(cfg[k]))
-            chk.count("jitter", cfg["jitter"])
+            chk.count("jitter", cfg["jitter"]); chk.count("parquet-storage", str(cfg.get("narrow")) if cfg["fmt"] == "parquet" else "text")
             chk.count("mode-x-predict", f"{case.get('mode', 'perfold')}/{cfg['predict']}")
             chk.count("collections-x-read_all", f"{len(dfs)}/{cfg['read_all']}")
             chk.count("decoys", bool(case.get("decoys", True))); chk.count("mixed-spelling", bool(case.get("mixed")))
@@ -903,6 +1106,11 @@ def run_case(chk, case):
             if case.get("mixed"):
                 chk.count("mixed-x-confidence", f"{cfg['fmt'] if cfg['fmt'] == 'parquet' else 'text'}/{cfg['confidence']}")
             if not diff and var is not None and case.get("mixed") and "files_mixed" in base and "files_mixed" in var:
+                idr = check_idtext(case, cfg, var, dfs, len(dfs[0]))
+                if idr is not None and idr[0] == "spec":
+                    chk.spec_violation("config-dependence:" + idr[1], dict(
+                        case={k: v for k, v in case.items() if k != "variants"}, variant=cfg, clause=idr[2]))
+                    return
                 md = diff_files(base["files_mixed"], var["files_mixed"])
                 if md:
                     chk.spec_violation("config-dependence:number-spelling", dict(
@@ -981,7 +1189,8 @@ def main(chk, args):
     env_channel_finish(chk, env_job)
     lc = None
     if chk.tier == "thorough":      # the property modules (Props/C05.lean and the extensions C05Cross, C05Stream)
-        lcs = [common.leanchecker("C05"), common.leanchecker("C05Cross"), common.leanchecker("C05Stream")]
+        lcs = [common.leanchecker("C05"), common.leanchecker("C05Cross"), common.leanchecker("C05Stream"),
+               common.leanchecker("C05Text")]
         lc = (all(x[0] for x in lcs), "".join(x[1] for x in lcs)[-2000:])
     chk.assumptions += [
         "PARTIAL: the theorems carry the chunk/worker/format-independence logic of the models of C02, C03, C13, C14 "
@@ -1001,6 +1210,16 @@ def main(chk, args):
         "spelling < fraction spelling < text that is not a number); generated for one numeric spectrum column and one "
         "roll-up level column; empty cells, several spellings of one number inside a text chunk ('017' / '17'), "
         "and text spectrum columns are named in GAPS-C05.md and not generated",
+    ]
+    chk.assumptions += [
+        "third pass: the folds are observed by wrapping OnDiskPsmDataset._split (return value); the Lean fold key "
+        "(xfoldkeys: common 64 bit dtype of all spectrum columns, first two values) is rendered with numpy's own scalar "
+        "repr and hashed with zlib.crc32 by the harness, the folds come from the split op of C02; numpy's result_type is "
+        "a parameter of the theorems (driver instance: its restriction to 64 bit signed columns); tables with a text "
+        "spectrum column or fractional spectrum values are tallied as skipped for this comparison",
+        "third pass: identifier cells are compared as text (result files read with dtype=str); the model of the three "
+        "chunked text reads (xtextfiles) is driven with the PSM id column; peptide, protein and level cells are compared "
+        "with the input cells by direct re-statement only; empty identifier cells and NA / NULL texts are not generated",
     ]
     chk.extra["differential_runs"] = chk.evaluations
     chk.finish(build, RULE, search=search, lc=lc,
